@@ -414,6 +414,28 @@ fn main() {
                 }
             }
             _ => {
+                // long term lists (thresholds of buffers, batches, sort/dedup passes): 40..600 terms over 6..10
+                // variables, with repeated terms, in random / sorted / reverse-sorted order
+                for r in 0..if thorough { 400 } else { 12 } {
+                    let nn = rng.range(6, 10);
+                    let mk = |rng: &mut Rng| em((rng.next_u64() & ((1u64 << nn) - 1)) as u32, rng.bool());
+                    let la = *rng.pick(&[40usize, 64, 65, 128, 257, 600]);
+                    let lb = *rng.pick(&[0usize, 1, 63, 64, 300]);
+                    let mut a: Vec<EcubeM> = (0..la).map(|_| mk(&mut rng)).collect();
+                    let mut b: Vec<EcubeM> = (0..lb).map(|_| if rng.chance(1, 3) { *rng.pick(&a) } else { mk(&mut rng) }).collect();
+                    match r % 3 {
+                        0 => {
+                            a.sort_by(|x, y| x.real().cmp(&y.real()));
+                            b.sort_by(|x, y| x.real().cmp(&y.real()));
+                        }
+                        1 => {
+                            a.sort_by(|x, y| y.real().cmp(&x.real()));
+                        }
+                        _ => {}
+                    }
+                    ctx.cell_only("soes-long-lists");
+                    exec(ctx, &soes_ev(nn, &a, &b), &mut rng);
+                }
                 let reps = if thorough { 120000 } else { 600 };
                 for _ in 0..reps {
                     // random Soes up to n = 8
@@ -506,6 +528,9 @@ fn main() {
     }
     for n in 0..=5 {
         required.push(format!("eall|n={}", n));
+        if n == 0 {
+            required.push("soes-long-lists".into());
+        }
         if n == 0 {
             for name in ["Ecube::all", "vars"] {
                 required.push(format!("iter-script|{}", name));
